@@ -362,6 +362,78 @@ def receiver_run(stream_chunks, nmsgs, nthreads, schedule, share):
     return got, eff, bytes(sock.sent), list(ws.readlock.log)
 
 
+def polling_receiver_run(stream_events, nthreads, schedule, share, budget):
+    """receivers that POLL: the socket has a timeout, a recv() that times out is simply called again (up to `budget`
+    time-outs per thread) until the thread has its share of messages."""
+    import websocket
+    b = Baton()
+    with library_locks(b):
+        ws = websocket.WebSocket()
+        sock = simnet.SimSocket(stream_events, tail="timeout")
+        sock.timeout = 0.5
+        ws.sock = BatonSocket(sock, b)
+        ws.connected = True
+        ws.set_mask_key(lambda n: b"\x00" * n)
+        got = {i: [] for i in range(nthreads)}
+        timeouts = {i: 0 for i in range(nthreads)}
+
+        def worker(i, k):
+            while len(got[i]) < k and timeouts[i] < budget:
+                try:
+                    got[i].append(ws.recv())
+                except Exception as e:  # noqa
+                    x = common.canon_exc(e)
+                    if x == "TIMEOUT":
+                        timeouts[i] += 1
+                    else:
+                        got[i].append("X:" + x)
+        for i in range(nthreads):
+            b.spawn(i, (lambda i=i: worker(i, share[i])))
+        eff = b.run(schedule)
+    return got, eff, timeouts
+
+
+def run_polling_receivers(ctx):
+    """(c') receivers that poll with a socket timeout: silences between (and inside) the frames of fragmented messages;
+    a time-out is not a loss — every message still reaches exactly one receiver, intact.  Oracle only."""
+    rnd = ctx.rng("polling-receivers")
+    n = 900 if ctx.thorough() else 150
+    for it in range(n):
+        nthreads = rnd.randint(1, 3)
+        nmsgs = rnd.randint(nthreads, 4)
+        msgs, frames = [], []
+        for m in range(nmsgs):
+            data = bytes([0x41 + m]) * rnd.choice([1, 2, 5, 130])
+            mop = rnd.choice([1, 2])
+            msgs.append(data.decode("ascii") if mop == 1 else data)
+            frames += rx.message(rnd, mop, data, rnd.randint(1, 3), ctrl_between=rnd.choice([0, 1]))
+        evs, nsil = [], 0
+        for f in frames:
+            enc = f.enc()
+            if rnd.random() < 0.5:
+                evs.append(("timeout",))
+                nsil += 1
+            if len(enc) > 2 and rnd.random() < 0.25:
+                k = rnd.randint(1, len(enc) - 1)
+                evs += [("chunk", enc[:k]), ("timeout",), ("chunk", enc[k:])]
+                nsil += 1
+            else:
+                evs.append(("chunk", enc))
+        share = [1] * nthreads
+        for _ in range(nmsgs - nthreads):
+            share[rnd.randrange(nthreads)] += 1
+        sched = [rnd.randrange(nthreads) for _ in range(rnd.randint(0, 150))]
+        got, eff, touts = polling_receiver_run(evs, nthreads, sched, share, budget=nsil + 2)
+        ctx.case(key=("rxpoll", it, tuple(eff[:40])), nontrivial=nsil > 0, cls=f"polling-receivers:threads={nthreads}:silences={min(nsil, 4)}")
+        delivered = [x for v in got.values() for x in v]
+        inp = {"op": "threads-recv with a socket timeout (a timed-out recv() is called again)", "frames": [f.desc() for f in frames],
+               "events": [e[0] if e[0] != "chunk" else len(e[1]) for e in evs], "threads": nthreads, "share": share, "schedule": eff[:120]}
+        if sorted(map(repr, delivered)) != sorted(map(repr, msgs)):
+            ctx.violate("each-message-intact-to-exactly-one-receiver", "message-lost-or-refused-after-a-receive-timeout", inp,
+                        [(type(m).__name__, len(m)) for m in msgs],
+                        [(type(x).__name__, x[:24] if isinstance(x, str) else x.hex()[:20]) for x in delivered], size=len(eff) + len(frames) + nsil)
+
+
 def frame_receiver_run(stream_chunks, nframes, nthreads, schedule, share):
     """workers call recv_frame() directly (no read lock there: only the frame buffer's own lock protects the parse state)."""
     import websocket
@@ -611,7 +683,7 @@ def run(ctx):
     ctx.rule = ("(a) every composition of the frame length as an accept pattern for frames of 6..10 bytes, sampled patterns for 125..100000 "
                 "bytes; (b) 2 threads x every schedule of length 9 (11), 3 threads x every schedule of length 6 (8), random 2-4 threads with "
                 "random payloads/patterns/schedules, co-simulated with the Lean interleaving model; (c) 2-3 receiver threads, fragmented "
-                "messages with control frames, random schedules, the Lean receivers model driven by the observed lock-acquisition order; (d) one receiver answering 1-3 pings while 1-2 threads send under short writes, co-simulated with the Lean programs model (the receiver = a thread whose program is the pongs); (a'') the write loop over the transport glue: every list of up to 3 `_socket.send` worlds (short writes incl. 0 and over-long, would-block with the wait expiring or not, timeouts, SSL EOF, OS errors) x blocking/non-blocking, against Model.SendGlue.sendLoop; (a') the short-write sends again on an object equipped with a dispatcher; (b') 2-4 threads each sending 0-3 frames (send_binary / ping / pong), 2 threads x every schedule of length 10 (12), co-simulated with the Lean programs model at yield-point granularity; the library's own locks are scheduled (none assigned by the harness). non-trivial = more than one piece / more than one context switch")
+                "messages with control frames, random schedules, the Lean receivers model driven by the observed lock-acquisition order; (c') 1-3 receivers polling with a socket timeout, silences between and inside the frames of fragmented messages (oracle only); (d) one receiver answering 1-3 pings while 1-2 threads send under short writes, co-simulated with the Lean programs model (the receiver = a thread whose program is the pongs); (a'') the write loop over the transport glue: every list of up to 3 `_socket.send` worlds (short writes incl. 0 and over-long, would-block with the wait expiring or not, timeouts, SSL EOF, OS errors) x blocking/non-blocking, against Model.SendGlue.sendLoop; (a') the short-write sends again on an object equipped with a dispatcher; (b') 2-4 threads each sending 0-3 frames (send_binary / ping / pong), 2 threads x every schedule of length 10 (12), co-simulated with the Lean programs model at yield-point granularity; the library's own locks are scheduled (none assigned by the harness). non-trivial = more than one piece / more than one context switch")
     run_short_writes(ctx)
     run_eagain(ctx)
     from props import c12_glue
@@ -619,6 +691,7 @@ def run(ctx):
     run_senders(ctx)
     run_programs(ctx)
     run_receivers(ctx)
+    run_polling_receivers(ctx)
     run_frame_receivers(ctx)
     run_mixed(ctx)
 
